@@ -589,7 +589,8 @@ def mon_c06(res):
                 fails.append(dict(clause="C06.accessor_missing", detail=tpath))
             else:
                 body = " ".join(sx.show(x) for x in fn_parts(acc)["body"])
-                want_ty = (tname if t.get("declared_vft") else None)
+                # the table type: the type's own <T>Vftable when it has a block, else the one of the nearest first base that has
+                want_ty = (tname if t.get("declared_vft") else _vft_owner(exp, tpath).split("::")[-1])
                 if not body.startswith("self . %s . vftable (paren) as * const " % bf[0][0]):
                     fails.append(dict(clause="C06.accessor_via_base", detail="%s: %s" % (tpath, body[:200])))
                 elif want_ty and not body.endswith(": : %sVftable" % want_ty) and not body.endswith(" %sVftable" % want_ty):
@@ -1226,7 +1227,7 @@ PROPS["C17"] = dict(
     level_note="Trusted: Coq kernel; model validated by this run's correspondence; doc lines containing a line break are outside the doc theorem's hypothesis (they split, as rustdoc would).",
 )
 PROPS["C14"] = dict(
-    profile=dict(modules=(1, 4), p_nested_mod=0.5, p_backend=0.6, extern_values=(0, 3), externs=(0, 2), types=(0, 4), enums=(0, 2), p_vftable=0.4, p_extern_only_module=0.15),
+    profile=dict(modules=(1, 4), p_nested_mod=0.5, p_backend=0.6, extern_values=(0, 3), externs=(0, 2), types=(0, 4), enums=(0, 2), p_vftable=0.4, p_extern_only_module=0.15, p_dotted_dirs=0.08),
     n=(400, 6000), corpus=["common", "C14"],
     aspects=["verdict", "fileset", "items", "opaque", "extern", "header"],
     monitors=[mon_c14],
